@@ -7,6 +7,8 @@ import (
 	"os"
 	"path/filepath"
 	"runtime"
+	"strings"
+	"sync/atomic"
 
 	"github.com/bluenviron/gohlslib/v2/pkg/storage"
 )
@@ -209,7 +211,25 @@ func scStore(r *Run) {
 		var acts []Action
 		last := len(parts) - 1
 		acts = append(acts, Action{"neighbour-file-activity", 2, neighbour})
-		if !finalized {
+		leftover := func(when string) {
+			es, _ := os.ReadDir(dir)
+			for _, e := range es {
+				if strings.HasPrefix(e.Name(), fname) {
+					r.Fail("remove", "disk-leftover", "after Remove (%s) the directory still holds %s", when, e.Name())
+				}
+			}
+		}
+		if !finalized && !removed && len(parts) > 0 {
+			// the muxer removes the segment it was still writing when it is closed: Remove without Finalize
+			acts = append(acts, Action{"remove-before-finalize", 1, func() {
+				files[0].Remove()
+				files[1].Remove()
+				removed = true
+				leftover("without Finalize")
+				r.Probe("removed-before-finalize")
+			}})
+		}
+		if !finalized && !removed {
 			acts = append(acts, Action{"newpart", 3, func() {
 				p := &stPart{}
 				p.ram, p.disk = files[0].NewPart(), files[1].NewPart()
@@ -335,6 +355,7 @@ func scStore(r *Run) {
 				if _, err := os.Stat(filepath.Join(dir, fname)); err == nil {
 					r.Fail("remove", "disk", "file still exists after Remove")
 				}
+				leftover("after Finalize")
 				if len(readers) > 0 {
 					r.Probe("readers-alive-across-remove")
 				}
@@ -486,13 +507,22 @@ func scStoreRace(r *Run) {
 		rounds := T.Range(1, 40)
 		remove := T.Chance(1, 3)
 		results := make([]*bad, nReaders)
+		var whole []byte
+		for _, m := range models {
+			whole = append(whole, m...)
+		}
+		var finalized atomic.Bool
 		r.Step()
 		fin.StartNoWait(func() {
 			for i := 0; i < rounds; i++ {
 				runtime.Gosched()
 			}
 			f.Finalize()
+			finalized.Store(true)
 			if remove {
+				for i := 0; i < rounds; i++ {
+					runtime.Gosched()
+				}
 				f.Remove()
 			}
 		})
@@ -500,6 +530,26 @@ func scStoreRace(r *Run) {
 			ti := ti
 			t.StartNoWait(func() {
 				for k := 0; k < 60 && results[ti] == nil; k++ {
+					// once the file is final, several goroutines open and drain the whole file at the same time
+					if wasFinal := finalized.Load(); wasFinal && k%2 == 0 {
+						rc, err := f.Reader()
+						if err != nil {
+							if remove {
+								return
+							}
+							results[ti] = &bad{fmt.Sprintf("file %d: Reader after Finalize: %v", fi, err)}
+							return
+						}
+						got, err := io.ReadAll(rc)
+						rc.Close()
+						if err != nil && remove {
+							return
+						}
+						if err != nil || !bytes.Equal(got, whole) {
+							results[ti] = &bad{fmt.Sprintf("file %d: a file reader opened concurrently with others returned %d bytes (err %v), the parts hold %d", fi, len(got), err, len(whole))}
+						}
+						continue
+					}
 					pi := (ti + k) % len(parts)
 					rc, err := parts[pi].Reader()
 					if err != nil {
@@ -530,6 +580,9 @@ func scStoreRace(r *Run) {
 		if !remove {
 			f.Remove()
 		}
+	}
+	if es, _ := os.ReadDir(dir); len(es) > 0 && !r.Failed() {
+		r.Fail("remove", "disk-leftover", "after every file was removed the directory still holds %d entries, e.g. %s", len(es), es[0].Name())
 	}
 	r.Stats.NonTrivial = true
 	r.Probe("store-race-files")
